@@ -111,7 +111,10 @@ const LIMIT_PALETTE: [LimitSpec; 7] = [
 ];
 
 fn pick_gap(rng: &mut Rng) -> GapSpec {
-    match rng.weighted(&[35, 8, 8, 10, 12, 12, 8, 7]) {
+    match rng.weighted(&[35, 8, 8, 10, 12, 12, 8, 7, 2, 2, 2]) {
+        8 => GapSpec::Val(-0.0),
+        9 => GapSpec::Val(5e-324),
+        10 => GapSpec::Val(f64::MAX),
         0 => GapSpec::Unset,
         1 => GapSpec::Val(0.0),
         2 => GapSpec::Val(1e-9),
